@@ -8,6 +8,7 @@ import (
 	"io/fs"
 	"os"
 	"path/filepath"
+	"strings"
 	"syscall"
 
 	"github.com/oklog/ulid/v2"
@@ -76,7 +77,56 @@ func (bs *filesystemPartStore) Start(ctx context.Context) error {
 	if err := bs.ValidatedLifecycle.Start(ctx); err != nil {
 		return err
 	}
-	return bs.ensureRootDir()
+	if err := bs.ensureRootDir(); err != nil {
+		return err
+	}
+	return bs.recoverInterruptedCommits()
+}
+
+// recoverInterruptedCommits repairs what a process crash in the middle of a
+// transaction commit left behind in the root directory.
+//
+// A "<part>.txbackup.<id>" file is the content of a part that a pre-commit hook
+// moved aside; the hook that would have moved it back (rollback) or removed it
+// (after commit) died with the process. When the part file itself is missing
+// the backup is moved back: either the transaction never committed and the
+// metadata still references the part, or it did commit and the restored file is
+// an unreferenced part that the garbage collector reclaims. A backup whose part
+// file exists is left alone. Temp files of unfinished writes are never
+// referenced and are removed.
+func (bs *filesystemPartStore) recoverInterruptedCommits() error {
+	dirEntries, err := os.ReadDir(bs.root)
+	if err != nil {
+		return err
+	}
+	for _, dirEntry := range dirEntries {
+		name := dirEntry.Name()
+		if dirEntry.IsDir() {
+			continue
+		}
+		if len(name) > 32 && strings.HasPrefix(name[32:], ".txbackup.") {
+			if _, ok := bs.tryGetPartIdFromFilename(name[:32]); !ok {
+				continue
+			}
+			filename := filepath.Join(bs.root, name[:32])
+			if _, err := os.Stat(filename); errors.Is(err, fs.ErrNotExist) {
+				if err := os.Rename(filepath.Join(bs.root, name), filename); err != nil {
+					return err
+				}
+			} else if err != nil {
+				return err
+			}
+			continue
+		}
+		if len(name) > 33 && strings.HasPrefix(name, ".") && strings.HasSuffix(name, ".tmp") {
+			if _, ok := bs.tryGetPartIdFromFilename(name[1:33]); ok {
+				if err := os.Remove(filepath.Join(bs.root, name)); err != nil && !errors.Is(err, fs.ErrNotExist) {
+					return err
+				}
+			}
+		}
+	}
+	return nil
 }
 
 func (bs *filesystemPartStore) PutPart(ctx context.Context, tx database.Tx, partId partstore.PartId, reader io.Reader) error {
